@@ -214,6 +214,8 @@ pub struct Cfg {
     /// A second animated entity: plain `Animator<Target>` (no selector, no chain) playing
     /// `tls[index]`, spawned before or after the main entity.
     pub extra_entity: Option<(usize, bool)>,
+    /// The extra entity is not there from the start but spawned by a `SpawnExtra` operation.
+    pub extra_spawned_late: bool,
     /// An orphan: an entity with an enabled `Animator<Target>` (playing `tls[index]`) but no
     /// `Target` component (yet); spawned before (`true`) or after the other entities. The plugin
     /// must simply skip it - every other entity behaves as if it were not there.
@@ -233,6 +235,13 @@ pub enum BOp {
     Enable(bool),
     Reset,
     SetTimeline { tl: usize, reset: bool, start_with: bool },
+    /// Spawn the extra plain animated entity now (when the configuration spawns it late).
+    SpawnExtra,
+    /// Despawn the extra plain animated entity.
+    DespawnExtra,
+    /// Remove / (re-)insert the `AnimationChain` component of the selector entity at run time.
+    RemoveChain,
+    InsertChain,
     /// Insert the `AnimationSelector` (and chain) now - used when the configuration says the
     /// selector is attached to an already existing, possibly already animating entity
     InsertSelector,
@@ -319,6 +328,7 @@ pub fn scn_to_json(s: &BScn) -> Json {
         .set("selector_inserted_later", c.selector_inserted_later)
         .set("selector_animator_prebuilt", c.selector_animator_prebuilt)
         .set("second_animator", c.second.as_ref().map(other_to_json).unwrap_or(Json::Null))
+        .set("extra_entity_spawned_late", c.extra_spawned_late)
         .set(
             "orphan_animator_without_target",
             match c.orphan {
@@ -367,6 +377,10 @@ pub fn scn_to_json(s: &BScn) -> Json {
                         .set("then_reset", *reset)
                         .set("start_with_component", *start_with),
                     BOp::InsertSelector => Json::obj().set("insert_selector", true),
+                    BOp::SpawnExtra => Json::obj().set("spawn_extra_entity", true),
+                    BOp::DespawnExtra => Json::obj().set("despawn_extra_entity", true),
+                    BOp::RemoveChain => Json::obj().set("remove_chain", true),
+                    BOp::InsertChain => Json::obj().set("insert_chain", true),
                     BOp::PauseTime(b) => Json::obj().set("pause_app_clock", *b),
                     BOp::TimeSpeed(x) => Json::obj().set("app_clock_speed", *x),
                 })
@@ -439,6 +453,10 @@ pub fn scn_from_json(j: &Json) -> Result<BScn, String> {
             Json::Null => None,
             v => Some(other_from_json(v)?),
         },
+        extra_spawned_late: match c.get("extra_entity_spawned_late") {
+            Some(v) => v.as_bool()?,
+            None => false,
+        },
         orphan: match c.get("orphan_animator_without_target") {
             None | Some(Json::Null) => None,
             Some(v) => Some((
@@ -480,6 +498,14 @@ pub fn scn_from_json(j: &Json) -> Result<BScn, String> {
                     ops.push(BOp::Enable(b.as_bool()?));
                 } else if op.get("insert_selector").is_some() {
                     ops.push(BOp::InsertSelector);
+                } else if op.get("spawn_extra_entity").is_some() {
+                    ops.push(BOp::SpawnExtra);
+                } else if op.get("despawn_extra_entity").is_some() {
+                    ops.push(BOp::DespawnExtra);
+                } else if op.get("remove_chain").is_some() {
+                    ops.push(BOp::RemoveChain);
+                } else if op.get("insert_chain").is_some() {
+                    ops.push(BOp::InsertChain);
                 } else if let Some(b) = op.get("pause_app_clock") {
                     ops.push(BOp::PauseTime(b.as_bool()?));
                 } else if let Some(x) = op.get("app_clock_speed") {
@@ -592,6 +618,28 @@ pub fn insert_selector(cfg: &Cfg, e: &mut bevy::ecs::world::EntityMut) {
     }
 }
 
+/// Attaches only the chain component described by the configuration.
+pub fn insert_chain(cfg: &Cfg, e: &mut bevy::ecs::world::EntityMut) {
+    if let Some(pairs) = &cfg.chain {
+        let mut cb = AnimationChainBuilder::<Key>::new();
+        for (from, to) in pairs {
+            cb = cb.add(*from, *to);
+        }
+        e.insert(cb.build());
+    }
+}
+
+pub fn spawn_extra_entity(cfg: &Cfg, app: &mut App) -> Option<Entity> {
+    cfg.extra_entity.map(|(tl, _)| {
+        app.world
+            .spawn((
+                target_of(&cfg.initial),
+                Animator::<Target>::with_timeline(build_target_merged(&cfg.tls[tl])),
+            ))
+            .id()
+    })
+}
+
 pub fn build_world(cfg: &Cfg) -> SimWorld {
     let mut app = App::new();
     let base = Instant::now();
@@ -661,7 +709,7 @@ pub fn build_world(cfg: &Cfg) -> SimWorld {
         spawn_orphan(&mut app);
     }
     let mut extra = None;
-    if matches!(cfg.extra_entity, Some((_, true))) {
+    if matches!(cfg.extra_entity, Some((_, true))) && !cfg.extra_spawned_late {
         extra = spawn_extra(&mut app);
     }
     let spawn_main = |app: &mut App| -> Entity {
@@ -705,7 +753,7 @@ pub fn build_world(cfg: &Cfg) -> SimWorld {
     if cfg.mirror == Some(false) {
         mirror = Some(spawn_main(&mut app));
     }
-    if matches!(cfg.extra_entity, Some((_, false))) {
+    if matches!(cfg.extra_entity, Some((_, false))) && !cfg.extra_spawned_late {
         extra = spawn_extra(&mut app);
     }
     if matches!(cfg.orphan, Some((_, false))) {
